@@ -38,37 +38,11 @@ Definition sext (bits v : Z) : Z := let m := v mod 2 ^ bits in if m <? 2 ^ (bits
 Definition is_int8 (v : Z) : bool := (-128 <=? v) && (v <=? 127).
 
 (* ---------------------------------------------------------------- the strict validator as it is on HEAD
-   C13's `validate` (Verif.X86Validate.ValidateModel) with the check that /repo 4824306 added inside the operand loop:
-   a physical vector register 16..31 on an instruction that has no EVEX encoding is refused (kInvalidPhysId) right after the
-   register passed the type / id-mask checks.  The adapter walks the operands in the loop's order with C13's own
-   `xlat_operand`; an error of the unmodified validator that comes earlier (instruction id, lock / rep stage, an earlier or the
-   same operand) wins.  When C13's model gains the check itself the adapter changes nothing. *)
-Fixpoint high_vec_scan (T : vtables) (x64 : bool) (avx : N) (evex : bool) (ops : list operand) : option N :=
-  match ops with
-  | [] => None
-  | ONone :: _ => None
-  | op :: rest =>
-    match xlat_operand T x64 false avx op with
-    | XErr _ => None
-    | XOk _ _ =>
-      match op with
-      | OReg rt id => if (16 <=? id)%N && (RT_Vec128 <=? rt)%N && (rt <=? RT_Vec512)%N && negb evex then Some E_InvalidPhysId
-                      else high_vec_scan T x64 avx evex rest
-      | _ => high_vec_scan T x64 avx evex rest
-      end
-    end
-  end.
-
+   C13's `validate` (Verif.X86Validate.ValidateModel).  Since C13's round 5 it contains the check of /repo 4824306 itself (a
+   physical vector register 16..31 on an instruction without an EVEX encoding is refused with kInvalidPhysId inside the
+   operand loop); the adapter that inserted it in round 5 is now the identity and only fixes the `virt_ok = false` argument. *)
 Definition validate_head (T : vtables) (zq x64 : bool) (inst : vinst) (ops : list operand) : N :=
-  let e := validate T zq x64 false inst ops in
-  if (vt_count T <=? vi_id inst)%N then e else
-  let '(iflags, avx, _, _) := nth (N.to_nat (vi_id inst)) (vt_inst T) (0, 0, 0, 0)%N in
-  if negb (lock_stage (vi_options inst) iflags (first_is_mem ops) =? E_Ok)%N then e else
-  if negb (rep_stage (vi_options inst) iflags =? E_Ok)%N then e else
-  match high_vec_scan T x64 avx (test iflags IF_Evex) ops with
-  | Some x => x
-  | None => e
-  end.
+  validate T zq x64 false inst ops.
 
 Definition bind_l (o : option Z) (f : Z -> mres) : mres := match o with Some v => f v | None => MStuck end.
 
